@@ -101,6 +101,28 @@ def run(tier, seed):
         except Exception:
             continue
         B.run_case(regrun.policy_of(pd), reg, "record", None, f"attobj-mutation/{fmt}", scn=None)
+    # a history: a response whose credential key uses CBOR value sharing (tag 28 marks a value, tag 29 refers to it) and then one whose key is nothing but a dangling
+    # reference (d8 1d 00): whatever a decoder remembers from the first call, the second one has no attested key and is refused - in every order, on this thread
+    import hashlib as _h2
+    from harness import authsim as _as
+    cdj_n = _as.client_data("webauthn.create", b"\x01\x02challenge", "https://example.com")
+    kx = _as.Cred("ES256-P256").cose
+    def none_reg(tail):
+        ad = _h2.sha256(b"example.com").digest() + b"\x41" + b"\x00\x00\x00\x05" + bytes(16) + b"\x00\x04" + b"cid1" + tail
+        return regsim.Registration(_as.Cred("ES256-P256"), b"cid1", cdj_n, cbor2.dumps({"fmt": "none", "attStmt": {}, "authData": ad}))
+    pol_n = impl.RegPolicy(b"\x01\x02challenge", "example.com", "https://example.com")
+    sharing = none_reg(b"\xa5\x01\x02\x03\x26\x20\x01\x21\xd8\x1c\x58\x20" + kx[-2] + b"\x22\xd8\x1c\x58\x20" + kx[-3])
+    sharing_bad = none_reg(b"\xa5\x01\x02\x03\x26\x20\x01\x21\xd8\x1c\x58\x20" + kx[-2] + b"\x22\xd8\x1c\x58\x20" + kx[-3] + b"\x00")
+    dangling = [none_reg(b"\xd8\x1d\x00"), none_reg(b"\xd8\x1d\x01"), none_reg(b"\xa5\x01\x02\x03\x26\x20\x01\x21\xd8\x1d\x00\x22\xd8\x1d\x01")]
+    refs = [impl.verify_reg(pol_n, d_.as_dict()) for d_ in dangling]
+    for first_ in (sharing, sharing_bad, sharing):
+        impl.verify_reg(pol_n, first_.as_dict())
+        for d_, ref_ in zip(dangling, refs):
+            o_ = impl.verify_reg(pol_n, d_.as_dict())
+            chk.evals += 1
+            if o_.startswith("OK") or o_ != ref_:
+                chk.violation("a response whose credential key is only a dangling CBOR shared-value reference is " + ("accepted" if o_.startswith("OK") else "judged differently") + " after a response that used value sharing", "history cbor-shared-reference",
+                              {"entry": "verify_registration_response", "history": [first_.as_dict(), d_.as_dict()], "alone": ref_[:200], "after_the_first": o_[:200]})
     # expectations in a form the signature does not promise (several RP IDs as a list / tuple, the RP ID as bytes, several challenges): IF such a call is accepted
     # at all, the response still carries SHA-256 of ONE listed RP ID and ONE listed challenge - never of a combination of them
     import hashlib as _hl
